@@ -312,7 +312,15 @@ def r8(p, rep):
 
 def r9(p, rep):
     rep.rule("C02.R9", "one solution is taken from sympy's solution set only when the set has exactly one element (none / several raise)", "T-DOM (interval on len() from the dominating guards)", floor=1)
-    f = p.func("solve", "einx._src.util.solver")
+    f0 = p.func("solve", "einx._src.util.solver")
+    n = 0
+    for f in common.with_helpers(p, f0):
+        n += _r9_in(p, rep, f)
+    if n == 0:
+        raise AnalysisError("unrecognised idiom: no element is taken from sympy's solution set in util.solver.solve")
+
+
+def _r9_in(p, rep, f):
     cfg = common.cfg_of(f)
     n = 0
     for node in walk_no_nested(f.node):
@@ -359,8 +367,7 @@ def r9(p, rep):
         lo, hi = common.len_bounds(facts, sel.id)
         ok = (lo, hi) == (1, 1)
         rep.add("C02.R9", f"{f.qualname}:take-one({sel.id})", f"{f.module.rel}:{node.lineno}", ok, f"`{norm(node)}` is reached only with len({sel.id}) == 1" if ok else f"`{norm(node)}` is reached with len({sel.id}) in [{lo}, {hi if hi is not None else 'inf'}]: with several solutions an arbitrary one (set order) is reported as THE solution instead of raising SolveExceptionTooManySolutions - ambiguous sizes are silently resolved")
-    if n == 0:
-        raise AnalysisError("unrecognised idiom: no element is taken from sympy's solution set in util.solver.solve")
+    return n
 
 
 def run(p, rep, tier):
